@@ -5,7 +5,7 @@
    list it stands for; a tc_call is (rule, argument = (variable, key-pointer identity, value),
    position) and is chosen by an adversary: colliding key pointers / positions / variables and
    values that change between rules are all covered by the universal quantification. *)
-From Verif Require Import Base Transform TCache TCacheProofs.
+From Verif Require Import Base Transform CaseMap TCache TCacheProofs.
 Local Open Scope nat_scope.
 
 (* one call of transformArg on a cache satisfying the invariant: the rule is evaluated against
@@ -167,3 +167,23 @@ Theorem C12_unchecked_and_uncleared_refuted :
     fst (tc_eval_tx_gen tid tcp_tf_builtin false tc_body_fixed true ps tc_empty) <> tc_uncached_tx tid tcp_tf_builtin ps.
 Proof. exact tc_first_phase_clearing_with_fixed_refuted. Qed.
 Print Assumptions C12_unchecked_and_uncleared_refuted.
+
+(* ---- the Unicode registry ----
+   The theorems above hold for EVERY transformation semantics tf. The correspondence (CorrC12)
+   evaluates them at CaseMap.apply_tu lo up - the registry in which t:lowercase / t:uppercase are
+   strings.ToLower / ToUpper on arbitrary bytes (non-ASCII runes mapped through the case tables lo / up
+   regenerated from Go's unicode package, invalid UTF-8 rewritten to U+FFFD, lengths changing). Stated
+   for that instance, for all tables: *)
+Theorem C12_unicode_registry_tx : forall (lo up : list CaseMap.case_range) (sem : nat -> list tid)
+  (ps : list (tc_txphase tid)) st,
+  Forall (fun p => Forall (fun c => tc_rule_wf tid sem (c_rule c)) (tc_phase_calls tid p)) ps ->
+  fst (tc_eval_tx tid (CaseMap.apply_tu lo up) ps st) = tc_uncached_tx tid (CaseMap.apply_tu lo up) ps.
+Proof. intros lo up. exact (tc_eval_tx_sound tid (CaseMap.apply_tu lo up)). Qed.
+Print Assumptions C12_unicode_registry_tx.
+
+Theorem C12_unicode_registry_cache_sound : forall (lo up : list CaseMap.case_range) (sem : nat -> list tid) r a idx st,
+  tc_rule_wf tid sem r -> tc_cache_inv tid (CaseMap.apply_tu lo up) sem st ->
+  forall vs es st', tc_transform_arg tid (CaseMap.apply_tu lo up) r a idx st = (vs, es, st') ->
+  (vs, es) = tc_uncached tid (CaseMap.apply_tu lo up) r a /\ tc_cache_inv tid (CaseMap.apply_tu lo up) sem st'.
+Proof. intros lo up. exact (tc_transform_arg_sound tid (CaseMap.apply_tu lo up)). Qed.
+Print Assumptions C12_unicode_registry_cache_sound.
